@@ -75,21 +75,30 @@ def emitBaseRRRR (d : BaseRRRRRow) (o0 o1 o2 o3 : Reg) : Result :=
 
 /-! ### kEncodingBaseAddSub -/
 
+/-- the optional `lsl #0|12` operand of ADD/SUB (immediate): `shift` (0 or 1), or refused -/
+def addSubShiftOf (sh : Option (BitVec 64 × Nat)) : Option Nat :=
+  match sh with
+  | none => some 0
+  | some (v, p) => if p != sopLSL then none else if v != 0 && v != 12 then none else some (if v != 0 then 1 else 0)
+
+/-- (imm12, sh) fields for an immediate and the explicit shift: values above 0xFFF are accepted as `0x00XXX000` when no shift was given -/
+def addSubImmFields (imm : BitVec 64) (shift : Nat) : Option (Nat × Nat) :=
+  if imm.toNat > 0xFFF then
+    if shift != 0 || (imm &&& ~~~ 0xFFF000#64) != 0 then none else some (imm.toNat >>> 12, 1)
+  else some (imm.toNat, shift)
+
 def emitAddSubImm (d : BaseAddSubRow) (o0 o1 : Reg) (imm : BitVec 64) (sh : Option (BitVec 64 × Nat)) : Result :=
   if !(checkGpType o0 kWX && o0.sameSig o1) then invalidInstruction else
   let x := xOf o0 kWX
   let op : BitVec 32 := w32 d.immediate_op <<< 24
   let aHi := if op.getLsbD 29 then idZR else idSP
   if !checkGpId o0 aHi || !checkGpId o1 idSP then invalidPhysId else
-  match (match sh with
-         | none => some 0
-         | some (v, p) => if p != sopLSL then none else if v != 0 && v != 12 then none else some (if v != 0 then 1 else 0)) with
+  match addSubShiftOf sh with
   | none => invalidImmediate
   | some shift =>
-    if imm.toNat > 0xFFF then
-      if shift != 0 || (imm &&& ~~~ 0xFFF000#64) != 0 then invalidImmediate
-      else ok1 (op ||| addImm x 31 ||| addImm 1 22 ||| addImm (imm.toNat >>> 12) 10 ||| addReg o1.id 5 ||| addReg o0.id 0)
-    else ok1 (op ||| addImm x 31 ||| addImm shift 22 ||| addImm imm.toNat 10 ||| addReg o1.id 5 ||| addReg o0.id 0)
+    match addSubImmFields imm shift with
+    | none => invalidImmediate
+    | some (field, shf) => ok1 (op ||| addImm x 31 ||| addImm shf 22 ||| addImm field 10 ||| addReg o1.id 5 ||| addReg o0.id 0)
 
 def emitAddSubReg (d : BaseAddSubRow) (o0 o1 o2 : Reg) (sh : Option (BitVec 64 × Nat)) : Result :=
   if !(checkGpType o0 kWX && o0.sameSig o1) then invalidInstruction else
